@@ -79,6 +79,12 @@ Q_C02mut == {[BaseQ EXCEPT !.items = <<E(Fa(1))>>, !.hastop = TRUE, !.top = 1],
              [BaseQ EXCEPT !.items = <<E(Fa(1)), E(NRx)>>, !.order = <<Fa(1)>>, !.desc = TRUE],
              [BaseQ EXCEPT !.items = <<E(Fa(1))>>, !.distinct = "uniq", !.order = <<Fa(2)>>]}
 
+\* bounded queries that need no buffering, for the unbounded-input (cyclic iterator) liveness config
+Q_C02live == {[BaseQ EXCEPT !.items = its, !.where = w, !.hastop = TRUE, !.top = t] :
+                its \in {<<E(Fa(1))>>, <<E(Fa(1)), <<"unnest", <<"flds", <<1, 2>>>>>> >>, << <<"star">> >>}, w \in {TRUEx, <<"eq", Fa(1), L(97)>>}, t \in 0..2}
+\* tables on which every such WHERE passes at least once per cycle
+R_live == {<<S(97), S(98)>>, <<S(97), S(97)>>}
+
 Q_C02join == {[BaseQ EXCEPT !.items = <<E(Fa(1)), E(Fb(2))>>, !.join = "inner", !.jkeys = << <<1, 1>> >>,
                            !.order = o, !.desc = d, !.distinct = di, !.hastop = ht, !.top = t] :
                 o \in {<<>>, <<Fa(1)>>, <<Fb(2)>>}, d \in BOOLEAN, di \in {"none", "uniq", "count"}, ht \in BOOLEAN, t \in 0..3}
